@@ -63,6 +63,6 @@ func init() {
 				"the model implements the property statement; where the statement leaves the outcome open (insert over an empty-but-present list/container, read order of map-backed lists, partial writes of a failed edit) every outcome is accepted and the model re-synchronised",
 				"struct-backed stores cannot tell zero from unset: generated values avoid zero values for them",
 				"no fault dimension: this is seeded, replayable, minimised exploration of histories, the thinnest fit among the claimed properties",
-			}, 3000)
+			}, 8000)
 	}
 }
